@@ -437,6 +437,38 @@ func main() {
 		fmt.Printf("VIOLATION property=%s replay=%s%s\n", pid, rp, suffix)
 		exit = 1
 	}
+	// functions under contract whose obligations could not be generated (construct outside the
+	// subset): the property is undecided for them, unless the concrete contract check on the real
+	// code finds a failing input - that is a violation with a replayable counterexample
+	if theWorld != nil && !skipWitness {
+		var fks []string
+		for k := range theWorld.FuncErrors {
+			fks = append(fks, k)
+		}
+		sort.Strings(fks)
+		for _, k := range fks {
+			fs := theWorld.FuncSpecs[k]
+			if fs == nil {
+				continue
+			}
+			res := theWorld.witnessFor(fs, nil, *repo, 6000, nil)
+			if res == nil {
+				continue
+			}
+			if c, _ := res["confirmed"].(bool); c {
+				rp := filepath.Join(*verif, "replay", fmt.Sprintf("%s-%s.json", pid, sanitize(k+"/contract-on-real-code")))
+				r := map[string]interface{}{"property": pid, "obligation": k + "/contract-on-real-code", "function": k,
+					"note": "the function could not be brought under the VC generator (" + theWorld.FuncErrors[k] + "); its contract was evaluated on concrete executions of the real code instead and is violated by the recorded input",
+					"witness": res}
+				b, _ := json.MarshalIndent(r, "", " ")
+				os.WriteFile(rp, b, 0644)
+				fmt.Printf("FAILED %s/contract-on-real-code :: %v\n", k, res["violated"])
+				fmt.Printf("VIOLATION property=%s replay=%s\n", pid, rp)
+				violations++
+				exit = 1
+			}
+		}
+	}
 	for _, o := range coverBad {
 		fmt.Printf("VACUOUS %s: %s on no path (contradictory precondition or invariant?)\n", o.Name, o.Text)
 	}
@@ -449,6 +481,9 @@ func main() {
 		if exit == 0 {
 			exit = 2
 		}
+	}
+	if exit == 1 && violations == 0 {
+		exit = 2
 	}
 	if nObl == 0 && exit == 0 {
 		fmt.Println("ERROR no obligations generated")
